@@ -18,6 +18,7 @@ Scope: see `col.bounds` / `rule` in run().
 import itertools
 import os
 import time
+import traceback
 
 from .common import Collector, TmpDir, to_py
 from .refmodels import bam as ref
@@ -35,13 +36,28 @@ PAYLOADS = [0xFF00, 64, 17, 1000]
 
 
 # ----------------------------------------------------------------------------------------------------- generators
+def mk_tags(nbytes, salt=0):
+    """well-formed optional fields (spec 4.2.4) of exactly `nbytes` bytes (1..3 are rounded up to 4), as hex"""
+    if nbytes <= 0:
+        return ""
+    nbytes = max(nbytes, 4)
+    out = b""
+    if nbytes >= 11:
+        out += b"XIi" + bytes((salt * 13 + k * 101 + 7) % 256 for k in range(4))
+        nbytes -= 7
+    if nbytes == 4 and salt % 2:
+        return (out + b"NMC" + bytes([(salt * 7) % 256])).hex()
+    out += b"XSZ" + bytes(33 + (salt + k * 5) % 90 for k in range(nbytes - 4)) + b"\0"
+    return out.hex()
+
+
 def mk_record(i, name_len, n_cigar, l_seq, tag_len, n_refs, salt=0, ref_id=None):
     """deterministic record of the given shape; contents vary with (i, salt) so that neighbours differ"""
     name = "".join(NAMECH[(i * 5 + k * 3 + salt) % len(NAMECH)] for k in range(name_len))
     cigar = [[OPS[(salt + k * 4 + i) % 9], CLEN[(salt + i + 2 * k) % len(CLEN)]] for k in range(n_cigar)]
     seq = "".join(ref.SEQ_CODE[(salt * 3 + k * 7 + i + 1) % 16] for k in range(l_seq))
     qual = [(salt * 11 + k * 31 + i * 7 + 10) % 94 for k in range(l_seq)]
-    tags = bytes((salt + k * 37 + i + 1) % 256 for k in range(tag_len)).hex()
+    tags = mk_tags(tag_len, salt + i)
     if ref_id is None:
         ref_id = -1 if (n_refs == 0 or (i + salt) % 5 == 4) else (i + salt) % n_refs
     pos = -1 if ref_id < 0 else POS[(i + salt) % len(POS)]
@@ -50,14 +66,14 @@ def mk_record(i, name_len, n_cigar, l_seq, tag_len, n_refs, salt=0, ref_id=None)
         flag |= 4
     return {"ref": ref_id, "pos": pos, "name": name, "mapq": [0, 60, 255, 1, 37][(i + salt) % 5], "flag": flag,
             "cigar": cigar, "seq": seq, "qual": qual, "next_ref": (i % (n_refs + 1)) - 1,
-            "next_pos": [-1, 0, 123456][i % 3], "tlen": [0, -300, 300, -(1 << 31), (1 << 31) - 1][i % 5], "tags": tags}
+            "next_pos": [-1, 0, 123456][i % 3], "tlen": [0, -300, 300, -(1 << 31) + 1, (1 << 31) - 1][i % 5], "tags": tags}
 
 
 def shapes(tier):
     if tier == "quick":
-        nl, nc, ls, tl = [1, 2, 3, 4, 254], [0, 1, 2, 3, 4], list(range(8)), [0, 3]
+        nl, nc, ls, tl = [1, 2, 3, 4, 254], [0, 1, 2, 3, 4], list(range(8)), [0, 5]
     else:
-        nl, nc, ls, tl = [1, 2, 3, 4, 5, 7, 8, 253, 254], [0, 1, 2, 3, 4], list(range(10)), [0, 3, 8]
+        nl, nc, ls, tl = [1, 2, 3, 4, 5, 7, 8, 253, 254], [0, 1, 2, 3, 4], list(range(10)), [0, 4, 5]
     return list(itertools.product(nl, nc, ls, tl))
 
 
@@ -119,13 +135,25 @@ def gen_sweep(kind, arg=0):
         recs = [_base(i, cigar=[[OPS[(i + k) % 9], 1 + (k * 5 + i) % 40] for k in range(i)]) for i in range(arg + 1)]
     elif kind == "tags":
         recs = [_base(i, seq="ACG"[:1 + i % 3] * (1 + i % 2), qual=[5] * ((1 + i % 3) * (1 + i % 2)),
-                      tags=bytes((k * 29 + i) % 256 for k in range(i)).hex()) for i in range(arg + 1)]
+                      tags=mk_tags(i, i)) for i in range(arg + 1)]
     elif kind == "fixed":
         # every fixed-width field carries a distinctive value, so that a read at a wrong offset is visible
         recs = [{"ref": 1, "pos": 0x01020304, "name": "nm", "mapq": 0x55, "flag": 0x0A0B, "cigar": [["M", 0x0C0D0E], ["I", 3], ["D", 9]],
-                 "seq": "TGCAN", "qual": [1, 2, 3, 4, 5], "next_ref": 0, "next_pos": 0x11121314, "tlen": -0x21222324, "tags": "aabbcc"},
+                 "seq": "TGCAN", "qual": [1, 2, 3, 4, 5], "next_ref": 0, "next_pos": 0x11121314, "tlen": -0x21222324, "tags": mk_tags(5, 1)},
                 {"ref": 0, "pos": 0x04030201, "name": "other", "mapq": 0xAA, "flag": 0xF0E0, "cigar": [["X", 0x0102030]],
                  "seq": "=R", "qual": [93, 0], "next_ref": 1, "next_pos": 0x41424344, "tlen": 0x31323334, "tags": ""}]
+    elif kind == "newline_tail":
+        # the generic reader appends a "\n" byte to a final chunk that does not end in one: files ending in byte 10
+        # (arg 0: last quality value 10; arg 1: last tag byte 10; arg 2: every record ends in 10; arg 3: none does)
+        if arg == 0:
+            recs = [_base(0), _base(1, seq="ACG", qual=[3, 4, 10])]
+        elif arg == 1:
+            recs = [_base(0), _base(1, tags="5858430a")]
+        elif arg == 2:
+            recs = [_base(i, seq="ACGT"[:1 + i], qual=[10] * (1 + i), name="n" * (i + 1)) for i in range(4)]
+        else:
+            recs = [_base(i, seq="ACGT"[:1 + i], qual=[11] * (1 + i), name="n" * (i + 1)) for i in range(4)]
+        return {"refs": refs, "records": recs, "payload": 0xFF00}
     elif kind == "empty":
         return {"refs": REFSETS[arg], "records": [], "payload": 0xFF00}
     elif kind == "refs":
@@ -173,7 +201,7 @@ def gen_random(rng, big=False):
                      "flag": rng.randrange(1 << 16) | (4 if ref_id < 0 else 0), "cigar": cig,
                      "seq": "".join(rng.choice(ref.SEQ_CODE) for _ in range(ls)), "qual": [rng.randrange(94) for _ in range(ls)],
                      "next_ref": rng.randrange(-1, n_refs), "next_pos": rng.randrange(-1, 1 << 30),
-                     "tlen": rng.randrange(-(1 << 31), 1 << 31), "tags": bytes(rng.randrange(256) for _ in range(rng.choice([0, 0, 1, 3, 7, 20]))).hex()})
+                     "tlen": rng.randrange(-(1 << 31) + 1, 1 << 31), "tags": mk_tags(rng.choice([0, 0, 4, 5, 7, 11, 20]), rng.randrange(256))})
     return {"refs": refs, "records": recs, "payload": rng.choice(PAYLOADS + [5, 33, 4096])}
 
 
@@ -235,6 +263,8 @@ class BamCase:
         self.exp = expected_fields(self.refs, self.records)
         self.no_refs = len(self.refs) == 0 and len(self.records) > 0
         self.tmp = tmp
+        # a file whose every wrong result is one known defect class collapses into one signature
+        self.one_sig = SIG_BIGCIGAR if any(len(r.get("cigar", [])) >= 16384 for r in self.records) else None
 
     def case(self, contract, param):
         return {"file": self.spec, "contract": contract, "param": param}
@@ -244,13 +274,22 @@ class BamCase:
         return {"file": s, "contract": contract, "param": param}
 
 
+def guard(col, fn, sig, case, bc, touches_chromosome):
+    """col.guarded, except that in a file without references (every record has refID=-1) an exception from code
+    that decodes the chromosome is the refID=-1 defect class and gets that one signature"""
+    if bc.no_refs and touches_chromosome:
+        try:
+            return fn()
+        except Exception:
+            col.fail(SIG_UNMAPPED + ":no-references:exception", case, traceback.format_exc()[-500:])
+            return None
+    return col.guarded(fn, sig, case)
+
+
 def observe(col, entry, prefix, case, bc, fields=FIELDS):
     got = {}
     for f in fields:
-        sig = prefix + ":" + f
-        if f == "chromosome" and bc.no_refs:
-            sig = SIG_UNMAPPED + ":no-references"
-        got[f] = col.guarded(lambda: pyval(getattr(entry, f)), sig, case)
+        got[f] = guard(col, lambda: pyval(getattr(entry, f)), prefix + ":" + f, case, bc, f == "chromosome")
     return got
 
 
@@ -264,6 +303,7 @@ def first_diff(g, e):
 
 
 def compare(col, got, exp, prefix, case, fields=FIELDS, one_sig=None):
+    # one_sig: see BamCase.one_sig
     """field-wise comparison; unmapped records' chromosome goes to its own signature (known defect class)"""
     ok = True
     for f in fields:
@@ -282,7 +322,7 @@ def compare(col, got, exp, prefix, case, fields=FIELDS, one_sig=None):
             ok &= col.check(not mapped_bad, one_sig or prefix + ":chromosome:wrong-reference-name", case,
                             "(record, got, expected) %r" % (mapped_bad[:3],))
             col.check(not unm_bad, SIG_UNMAPPED, case,
-                      "record with refID=-1 decodes to a reference name: (record, got) %r; references %r" % (unm_bad[:3], exp.get("_refs")))
+                      "record with refID=-1 decodes to a reference name instead of none: (record, got) %r" % (unm_bad[:3],))
         else:
             ok &= col.check(g == e, one_sig or prefix + ":" + f + ":wrong-value", case, f + " " + first_diff(g, e))
     return ok
@@ -293,16 +333,13 @@ def c_read_whole(col, bc, param):
     """param: "lazy" | "eager" """
     import bionumpy as bnp
     case = bc.case("read_whole", param)
-    one_sig = SIG_BIGCIGAR if bc.spec.get("gen", [""])[:2] == ["sweep", "large_cigar"] and bc.spec["gen"][2] >= 16384 else None
+    one_sig = bc.one_sig
     prefix = "read:whole:" + param
-    sig = prefix
-    if bc.no_refs and param == "eager":
-        sig = SIG_UNMAPPED + ":no-references:eager-read"
 
     def rd():
         with bnp.open(bc.path, **({"lazy": False} if param == "eager" else {})) as f:
             return f.read()
-    e = col.guarded(rd, sig, case)
+    e = guard(col, rd, prefix, case, bc, param == "eager")
     if e is None:
         return
     n = col.guarded(lambda: len(e), prefix + ":len", case)
@@ -317,14 +354,13 @@ IV_FIELDS = ["chromosome", "start", "stop", "strand"]
 
 
 def c_interval(col, bc, param):
-    """param: "function" | "buffer" | ["stream", c] """
+    """param: "function" | "buffer" | ["stream", c] | ["bufferchunks", c] """
     import bionumpy as bnp
     from bionumpy.alignments import alignment_to_interval
     from bionumpy.io.bam import BamIntervalBuffer
     case = bc.case("interval", param)
     kind = param if isinstance(param, str) else param[0]
     prefix = "interval:" + kind
-    sig = (SIG_UNMAPPED + ":no-references:" + prefix) if bc.no_refs else prefix
 
     def run():
         if kind == "function":
@@ -333,9 +369,12 @@ def c_interval(col, bc, param):
         if kind == "buffer":
             with bnp.open(bc.path, buffer_type=BamIntervalBuffer) as f:
                 return [f.read()]
+        if kind == "bufferchunks":
+            with bnp.open(bc.path, buffer_type=BamIntervalBuffer) as f:
+                return list(f.read_chunks(min_chunk_size=param[1]))
         with bnp.open(bc.path) as f:
             return list(alignment_to_interval(f.read_chunks(min_chunk_size=param[1])))
-    parts = col.guarded(run, sig, case)
+    parts = guard(col, run, prefix, case, bc, True)
     if parts is None:
         return
     got = {}
@@ -346,11 +385,8 @@ def c_interval(col, bc, param):
                 v = pyval(getattr(p, f))
                 out.extend(list(v) if not isinstance(v, str) else list(v))
             return ["".join(x) if isinstance(x, list) else x for x in out]
-        s = prefix + ":" + f
-        if f == "chromosome" and bc.no_refs:
-            s = SIG_UNMAPPED + ":no-references:" + prefix
-        got[f] = col.guarded(get, s, case)
-    compare(col, got, bc.exp, prefix, case, fields=IV_FIELDS)
+        got[f] = guard(col, get, prefix + ":" + f, case, bc, f == "chromosome")
+    compare(col, got, bc.exp, prefix, case, fields=IV_FIELDS, one_sig=bc.one_sig)
 
 
 def read_chunked(bc, c):
@@ -369,7 +405,7 @@ def c_read_chunks(col, bc, param):
     if chunks is None:
         return
     n = sum(len(ch) for ch in chunks)
-    if not col.check(n == len(bc.records), prefix + ":record-count-differs-from-whole", case,
+    if not col.check(n == len(bc.records), bc.one_sig or prefix + ":record-count-differs-from-whole", case,
                      "chunk size %d: %r records in chunks %r, file has %d (record sizes %r)" % (c, n, [len(ch) for ch in chunks], len(bc.records), bc.sizes)):
         return
     got = {f: [] for f in FIELDS}
@@ -380,7 +416,7 @@ def c_read_chunks(col, bc, param):
                 got[f] = None
             else:
                 got[f].extend(o[f])
-    compare(col, got, bc.exp, prefix, case)
+    compare(col, got, bc.exp, prefix, case, one_sig=bc.one_sig)
 
 
 def apply_sel(seq, sel):
@@ -428,10 +464,10 @@ def c_subset(col, bc, param):
         return
     idx = apply_sel(bc.records, param)
     n = col.guarded(lambda: len(e), prefix + ":len", case)
-    if not col.check(n == len(idx), prefix + ":record-count", case, "got %r expected %d" % (n, len(idx))):
+    if not col.check(n == len(idx), bc.one_sig or prefix + ":record-count", case, "got %r expected %d" % (n, len(idx))):
         return
     got = observe(col, e, prefix, case, bc)
-    compare(col, got, select(bc.exp, idx), prefix, case)
+    compare(col, got, select(bc.exp, idx), prefix, case, one_sig=bc.one_sig)
 
 
 def c_write(col, bc, param):
@@ -492,10 +528,10 @@ def c_write(col, bc, param):
     if e is None:
         return
     n = col.guarded(lambda: len(e), prefix + ":readback:len", case)
-    if not col.check(n == len(idx), prefix + ":readback:record-count", case, "got %r expected %d" % (n, len(idx))):
+    if not col.check(n == len(idx), bc.one_sig or prefix + ":readback:record-count", case, "got %r expected %d" % (n, len(idx))):
         return
     got = observe(col, e, prefix + ":readback", case, bc)
-    compare(col, got, select(bc.exp, idx), prefix + ":readback", case)
+    compare(col, got, select(bc.exp, idx), prefix + ":readback", case, one_sig=bc.one_sig)
 
 
 CONTRACTS = {"read_whole": c_read_whole, "interval": c_interval, "read_chunks": c_read_chunks, "subset": c_subset,
@@ -507,12 +543,11 @@ def evaluate(col, bc, contract, param, nontrivial=True):
     try:
         CONTRACTS[contract](col, bc, param)
     except Exception as e:  # a crash inside the checking code itself must not be silent
-        import traceback
         col.fail("checker:" + contract + ":exception:" + type(e).__name__, bc.case(contract, param), traceback.format_exc()[-500:])
 
 
 # ----------------------------------------------------------------------------------------------------- enumeration
-def boundary_chunk_sizes(bc):
+def boundary_chunk_sizes(bc, cap=30):
     """chunk sizes >= largest record whose chunk boundaries fall on / just before / just after record boundaries
     (0..4 bytes into the next record = inside its block_size field)"""
     m = max(bc.sizes)
@@ -525,7 +560,12 @@ def boundary_chunk_sizes(bc):
             cs.add(acc + d)
             if acc % 2 == 0:
                 cs.add(acc // 2 + d)
-    return sorted(c for c in cs if c >= m)
+    cs = sorted(c for c in cs if c >= m)
+    if len(cs) > cap:
+        mid = cs[5:-5]
+        step = len(mid) / float(cap - 10)
+        cs = cs[:5] + [mid[int(i * step)] for i in range(cap - 10)] + cs[-5:]
+    return cs
 
 
 def all_chunk_sizes(bc):
@@ -551,7 +591,7 @@ def selections(n, full):
     return out
 
 
-def standard(col, bc, chunks="boundary", sels="few", eager=True):
+def standard(col, bc, chunks="boundary", sels="few", eager=True, quick=False):
     """all contracts for one file"""
     n = len(bc.records)
     evaluate(col, bc, "read_whole", "lazy")
@@ -561,7 +601,12 @@ def standard(col, bc, chunks="boundary", sels="few", eager=True):
     evaluate(col, bc, "interval", "buffer")
     if n == 0:
         return
-    cs = {"boundary": boundary_chunk_sizes, "all": all_chunk_sizes}.get(chunks, lambda b: [])(bc)
+    if chunks == "boundary":
+        cs = boundary_chunk_sizes(bc, cap=(16 if n <= 40 else 6) if quick else (30 if n <= 40 else 12))
+    elif chunks == "all":
+        cs = all_chunk_sizes(bc)
+    else:
+        cs = []
     if chunks == "min":
         cs = [max(bc.sizes), max(bc.sizes) + 1, sum(bc.sizes)]
     for c in cs:
@@ -570,6 +615,7 @@ def standard(col, bc, chunks="boundary", sels="few", eager=True):
             return
     if cs:
         evaluate(col, bc, "interval", ["stream", cs[0]])
+        evaluate(col, bc, "interval", ["bufferchunks", cs[len(cs) // 2]])
         evaluate(col, bc, "write", ["stream", cs[0]])
         evaluate(col, bc, "write", ["stream", cs[len(cs) // 2]])
     evaluate(col, bc, "write", ["whole"])
@@ -589,7 +635,7 @@ def file_specs(tier):
     # value sweeps
     sw = [("fixed", 0), ("flag", 0), ("mapq", 0), ("pos", 0), ("namelen", 0), ("seq1", 0), ("seq2", 0), ("seqlen", 40 if quick else 300),
           ("qual", 0), ("cigar1", 0), ("cigar2", 0), ("ncigar", 20 if quick else 60), ("tags", 20 if quick else 40),
-          ("empty", 0), ("empty", 2), ("refs", 0), ("refs", 1), ("refs", 2), ("refs", 3),
+          ("newline_tail", 0), ("newline_tail", 1), ("newline_tail", 2), ("newline_tail", 3), ("empty", 0), ("empty", 2), ("refs", 0), ("refs", 1), ("refs", 2), ("refs", 3),
           ("header", 0), ("header", 1), ("header", 2), ("header", 3),
           ("large_cigar", 255), ("large_cigar", 16383), ("large_cigar", 16384)]
     if not quick:
@@ -598,17 +644,17 @@ def file_specs(tier):
         big = kind in ("seq3", "cigar3", "large_cigar", "namelen", "seqlen") or (kind == "header" and arg >= 2)
         out.append(({"gen": ["sweep", kind, arg]}, "min" if big else "boundary", "few"))
     # single-record files over a reduced shape grid
-    for nl, nc, ls, tl in itertools.product([1, 2, 254], [0, 1, 4], range(8), [0, 3]):
+    for nl, nc, ls, tl in itertools.product([1, 2, 254], [0, 1, 4], range(8), [0, 5]):
         out.append(({"gen": ["single", nl, nc, ls, tl, (nl + ls) % 4]}, "boundary", "full" if (ls + nc) % 4 == 0 else "none"))
     # chunk-size sweeps: every chunk size from the largest record to past the end
     for n in ([2, 3, 4, 6] if quick else [2, 3, 4, 5, 6, 8]):
-        for k in range(3 if quick else 12):
+        for k in range(2 if quick else 12):
             out.append(({"gen": ["chunk", k, n]}, "all", "full" if n <= 3 else "few"))
     # three-record files over the full shape grid
     N = len(shapes(tier))
-    for j in range(N):
-        out.append(({"gen": ["grid", tier, j]}, "boundary" if (not quick or j % 4 == 0) else "min",
-                    "full" if j % (20 if quick else 6) == 0 else ("few" if j % 5 == 1 else "none")))
+    for j in range(0, N, 2 if quick else 1):   # quick: even j; shapes with odd index still occur as 2nd/3rd record
+        out.append(({"gen": ["grid", tier, j]}, "boundary" if (not quick or j % 6 == 0) else "min",
+                    "full" if j % (25 if quick else 6) == 0 else ("few" if j % (10 if quick else 5) == 1 else "none")))
     return out
 
 
@@ -629,21 +675,21 @@ def run(tier="quick", seed=0):
     col.bounds = {"references": "0..3 (+300 in one header case)", "read_name_len": "1..254",
                   "n_cigar_op": "0..4 grid, 0..%d sweep, 255, 16383, 16384%s" % (20 if quick else 60, "" if quick else ", 256, 65535"),
                   "cigar_ops": "all nine; lengths " + str(CLEN), "l_seq": "0..%d grid, 0..%d sweep" % (7 if quick else 9, 40 if quick else 300),
-                  "quality": "0..93", "tag_bytes": "0..%d" % (20 if quick else 40), "records_per_file": "0..8 (sweeps up to 4096)",
+                  "quality": "0..93", "tag_bytes": "0, 4..%d (well-formed Z / C / i fields)" % (20 if quick else 40), "records_per_file": "0..8 (sweeps up to 4096)",
                   "chunk_size": "every size in [largest record, total+2] for chunk-sweep files; record-boundary sizes otherwise",
                   "write": "whole, every mask / permutation / slice for n<=4, two calls, chunk stream", "bgzf_block_payload": PAYLOADS,
-                  "random_files": "quick 120; thorough until ~420 s"}
+                  "random_files": "quick 40; thorough until ~420 s"}
     with TmpDir() as tmp:
         for spec, chunks, sels in file_specs(tier):
             bc = BamCase(spec, tmp)
-            standard(col, bc, chunks, sels)
+            standard(col, bc, chunks, sels, quick=quick)
             if col.out_of_time():
                 break
         # sampling above the bounds
         i = 0
         limit = 55 if quick else 420
         while not col.out_of_time():
-            if quick and i >= 120:
+            if quick and i >= 40:
                 break
             if time.time() - col.t0 > limit:
                 if quick:
@@ -652,7 +698,7 @@ def run(tier="quick", seed=0):
             spec = gen_random(col.rng, big=(i % 10 == 9))
             spec["id"] = "random-%d" % i       # explicit spec: replay needs no generator
             bc = BamCase(spec, tmp)
-            standard(col, bc, "boundary" if i % 3 else "all", "few" if i % 4 else "full", eager=(i % 2 == 0))
+            standard(col, bc, "boundary" if (i % 3 or quick) else "all", "few" if i % 4 else "full", eager=(i % 2 == 0), quick=quick)
             i += 1
     return col.result()
 
